@@ -77,6 +77,8 @@ func c14TCPJobs(tier string) []string {
 			iss := uint32(edge - uint64(o) - 3)
 			b := 1
 			add(fmt.Sprintf("or=swc,devs=kwhlo,mss=24,w=72,pd=3x20,iss=%d,piss=%d,b=%d", iss, piss, b), 2)
+			// several writes below the MSS: the wrap falls inside one write, the next starts after it
+			add(fmt.Sprintf("or=swc,devs=kwhl,mss=536,w=20+100+30,pd=20,iss=%d,piss=%d,b=1", iss, piss), 1)
 			if tier == "thorough" {
 				add(fmt.Sprintf("or=swc,devs=kwhloe,mss=24,w=72,pd=3x20,psack=1,sack=1,ts=1,iss=%d,piss=%d,b=1", iss, piss), 2)
 				add(fmt.Sprintf("or=swc,devs=kwhlo,mss=24,w=48,pd=2x20,iss=%d,piss=%d,b=2", iss, piss), 16)
